@@ -43,7 +43,7 @@ static long slot_of(const void *e)
 }
 static void ctor(void *e, void *p) { long s = slot_of(e); e_check_priv(p); ev_add("[\"ctor\",%ld]", s); if (s >= 0) put_tag(e, (int)(s + 1)); }
 static void dtor(void *e, void *p) { long s = slot_of(e); e_check_priv(p); ev_add("[\"dtor\",%ld]", s); if (s >= 0) memset(e, 0xEE, ESZ); }
-static int cmp(const void *a, const void *b, void *p) { e_check_priv(p); return (int)*(const unsigned char *)a - (int)*(const unsigned char *)b; }
+static int cmp(const void *a, const void *b, void *p) { e_check_priv(p); return e_cmp3(*(const unsigned char *)a, *(const unsigned char *)b); }
 
 static void drv_setup(int argc, char **argv)
 {
@@ -83,7 +83,7 @@ static void drv_apply(const vop_t *op, jb_t *res)
     case 1: { size_t old = v->count; a_begin(a[2] ? 1UL : 0UL); cstl_vector_resize(v, term(a)); a_end(); fill_new(old); jb_puts(res, ",\"ret\":0"); break; }
     case 2: a_begin(a[0] ? 1UL : 0UL); cstl_vector_shrink_to_fit(v); a_end(); jb_puts(res, ",\"ret\":0"); break;
     case 3: a_begin(0); cstl_vector_clear(v); a_end(); jb_puts(res, ",\"ret\":0"); break;
-    case 4: a_begin(0); __cstl_vector_sort(v, cmp, E_PRIV, cstl_swap, (cstl_sort_algorithm_t)a[0]); a_end(); jb_puts(res, ",\"ret\":0"); break;
+    case 4: a_begin(0); if (a[0] == (int)CSTL_SORT_ALGORITHM_DEFAULT) cstl_vector_sort(v, cmp, E_PRIV); else __cstl_vector_sort(v, cmp, E_PRIV, cstl_swap, (cstl_sort_algorithm_t)a[0]); a_end(); jb_puts(res, ",\"ret\":0"); break;
     case 5: a_begin(0); cstl_vector_reverse(v); a_end(); jb_puts(res, ",\"ret\":0"); break;
     case 6: {
         const unsigned char *p = cstl_vector_at(v, term(a));
